@@ -3,7 +3,7 @@ CONSTANTS
   NP = 2
   Threads <- GThreads
   Thr = 2
-  InitBal = 5
+  InitBal = 9
   PersistUnderLock = FALSE
   Amounts <- GAmounts
   MaxOps = 0
